@@ -36,11 +36,20 @@ def const_str(p):
     return None
 
 def flat_pats(p):
+    """flatten or-patterns, also when nested under Some(..) / references: Some(A | B) -> [Some(A), Some(B)]"""
     while p['k'] in ('Deref', 'DerefPattern'): p = p['sub']
     if p['k'] == 'Or':
         out = []
         for q in p['pats']: out.extend(flat_pats(q))
         return out
+    if p['k'] == 'Variant' and canon(p['adt']) == 'std::option::Option' and p['variant'] == 'Some' and p.get('subs'):
+        inner = flat_pats(p['subs'][0]['pat'])
+        if len(inner) > 1:
+            out = []
+            for q in inner:
+                c = dict(p); c['subs'] = [{'field': p['subs'][0]['field'], 'pat': q}]
+                out.append(c)
+            return out
     return [p]
 
 def token_of_pat(p):
